@@ -53,7 +53,7 @@ Headers ==
   ELSE IF HeaderMode = "metavals"
   THEN {[env |-> "DOC", sent |-> None, fm |-> None, meta |-> m, sep |-> p] : m \in MetaValChoices, p \in BOOLEAN}
   ELSE {[env |-> e, sent |-> s, fm |-> f, meta |-> m, sep |-> p] :
-          e \in {"DOC", "INFERRED", "my_doc"}, s \in {None, "5.1.0"}, f \in {None, "fm1"}, m \in MetaChoices, p \in BOOLEAN}
+          e \in {"DOC", "INFERRED", "my_doc"}, s \in {None, "5.1.0"}, f \in {None, "fm1", "fm3"}, m \in MetaChoices, p \in BOOLEAN}
 HeaderPlain(d) == d.env = "DOC" /\ d.sent = None /\ d.fm = None /\ d.meta = <<>> /\ ~d.sep
 HeaderFeatures(d) == (IF d.env # "DOC" THEN 1 ELSE 0) + (IF d.sent # None THEN 1 ELSE 0) + (IF d.fm # None THEN 1 ELSE 0)
                    + (IF d.meta # <<>> THEN 1 ELSE 0) + (IF d.sep THEN 1 ELSE 0)
